@@ -154,7 +154,11 @@ func (e *Engine) callFunc(fr *frame, ins ssa.Instruction, fn *ssa.Function, args
 		return nil, reach
 	}
 	// ghost intrinsics
-	switch fn.Name() {
+	baseName := fn.Name()
+	if fn.Origin() != nil {
+		baseName = fn.Origin().Name()
+	}
+	switch baseName {
 	case "old":
 		if fn.Pkg != nil && strings.HasPrefix(fn.Pkg.Pkg.Path(), repoModule) || fn.Origin() != nil && fn.Origin().Pkg != nil && strings.HasPrefix(fn.Origin().Pkg.Pkg.Path(), repoModule) {
 			return e.evalOld(fr, cc.Args[0]), reach
@@ -179,6 +183,9 @@ func (e *Engine) callFunc(fr *frame, ins ssa.Instruction, fn *ssa.Function, args
 			return Sc{bvLit(0, 64), SI64}, reach
 		}
 		return nil, reach
+	}
+	if v, r, ok := e.loModel(fr, ins, name, fn, args, resT, reach, heap); ok {
+		return v, r
 	}
 	if v, r, ok := e.externalModel(fr, ins, name, fn, args, resT, reach, heap); ok {
 		return v, r
@@ -479,6 +486,10 @@ func (e *Engine) invoke(fr *frame, ins ssa.Instruction, cc *ssa.CallCommon, recv
 			if fn != nil {
 				e.sc.assume(implies(reach, or(eq(iv.Tag, bvLit(0, 16)), eq(iv.Tag, e.tagOf(t)))))
 				rv := e.unboxIface(iv, t)
+				if sv, ok := rv.(Sc); ok && sv.S == SRef {
+					e.sc.assume(implies(and(reach, not(eq(iv.Tag, bvLit(0, 16)))), not(eq(sv.T, bvLit(0, 32)))))
+					e.warnOnce("interface values are assumed never to hold typed nil pointers")
+				}
 				return e.callFunc(fr, ins, fn, append([]Val{rv}, args...), nil, resT, reach, heap, cc)
 			}
 		}
